@@ -21,6 +21,27 @@ def campaign(c):
     for i in range(n):
         r = c.rng.fork('c02-%d' % i)
         netscen.run_scenario(c, r, 'ip', [kinds[i % len(kinds)]] if i < 5 * len(kinds) else None, project)
+    # crafted: IPv4 header sums whose first fold overflows 16 bits (identification tuned so that the low half is 0xffff)
+    from .. import progdiff, core
+    for i in range(12 if c.quick else 300):
+        r = c.rng.fork('hc%d' % i)
+        srcip, dstip = 0xffff0000 | r.below(65536), 0xfffe0000 | r.below(65536)
+        ttl, proto, n = r.choice([255, 254, 200]), r.choice([255, 253, 17]), r.below(40)
+        def prog(idv):
+            return ('import ipv4;\nipv4::datagram(%s, %s, id: %d, ttl: %d, proto: %d, df: true, "|%s|");\n' % (netscen.ip(srcip), netscen.ip(dstip), idv, ttl, proto, 'ab' * n)).encode()
+        f0 = progdiff.pcap_records(core.run_cli(prog(0))['pcap'] or b'')
+        if not f0: continue
+        h = bytearray(f0[0][1][14:34]); h[10:12] = b'\0\0'
+        s0 = sum(int.from_bytes(h[k:k + 2], 'big') for k in range(0, 20, 2))
+        idv = (0xffff - s0) & 0xffff
+        src = prog(idv)
+        impl, model = progdiff.run_both(c, src)
+        progdiff.compare(c, src, impl, model, 'hdr-double-carry', project=project(False), times=False)
+        if impl['outcome'][0] == 'success':
+            e = dict(src=srcip, dst=dstip, proto=proto, id=idv, ttl=ttl, off=0, evil=False, df=True, mf=False, l4=None, eth='ip')
+            netscen.judge(c, progdiff.pcap_records(impl['file'])[0][1], False, e, 'ip', dict(src=src.decode()))
+            c.count('hdr-double-carry')
+        c.case(('hc', i), dict(kind='hdr-double-carry', id=idv))
     c.assumptions += ['expected header fields come from the scenario generator (what the script asked for)',
                       'tunnel layers are peeled with Spec.decap*; VXLAN is recognised from the scenario, not from port numbers']
 
